@@ -230,6 +230,11 @@ def run(rep, tier, seed):
     common.prove(rep)
     rng = common.rng_for(seed, 'C16')
     drv = common.Driver()
+    # what the decoder makes of a tag it has no codec for is translated from the source on every run (GenK.explicitGuess = the
+    # stTryAsExplicitTag block; Props/C16 source_unknown_tag_is_wrapper_or_error) and compared with the real decoder
+    from harness import kernels
+    kernels.obligations(rep, ['explicitGuess', 'decodeTag'])
+    kernels.check(rep, drv, seed, 100 if tier == 'quick' else 3000, which=('explicitGuess', 'decodeTag'))
     n = 2500 if tier == 'quick' else 80000
     rep.rule = ('generated (type, value) in the sub-universe without IMPLICIT tags, ANY, and SET OF CHOICE; stress on empty SEQUENCE/SET/'
                 'SEQUENCE OF, single-member and homogeneous containers, explicit tags around containers; DER, BER (definite, indefinite, '
